@@ -5,6 +5,12 @@ NOTES = "Contract-based deductive verification of the real code: see DESIGN.md. 
 _PENDING = "check not built yet in this round (contracts planned in DESIGN.md section 3); will move to checks when its obligations are discharged"
 
 CHECKS = {
+    "C11": {
+        "category": "proof",
+        "text": "Every array-capable correlation (oil FVF, solution GOR, Spivey compressibility, five water correlations, four Fluid methods) is executed symbolically on an array of symbolic length once per dtype (float64, float32, int64, int32, and with python-int temperature/API/GOR for integer arrays); element j is proved equal to the scalar call's own term by case split over the branch conditions, the measure-zero case p == p_b decided by SMT; result dtype floating, input shape, input not written; int32 overflow obligations under 0<=p<=30000. 45 obligations. Strided views, length 0/1 and float32 rounding: BOUNDED run-time contracts.",
+        "note": "numpy dtype/promotion and mask models assumed (NEP 50 weak python scalars); reals for floats, so float32 precision is only covered by the bounded layer.",
+        "technique": "VC generation from the AST over symbolic-length typed arrays; CAS term equality by cases + SMT feasibility of boundary cases; bounded run-time contracts for layout/precision",
+    },
     "C13": {
         "category": "proof",
         "text": "Each clause of C13 is an identity between terms extracted from the AST of oil.py/water.py/gas.py on every run; the hand-coded derivative is compared with the exact symbolic derivative of the parent's own term and proved equal for every input of the box by CAS normal form (sympy, exact rationals); branch selection at the bubble point is an SMT obligation. All 8 obligations must be discharged.",
